@@ -152,11 +152,13 @@ PROPS = {
         judge=judge_c19,
         judge_always=True,
         rule="two-phase streams: warm-up (PAT, single- and multi-packet PMTs, one PES packet on every elementary PID, a null packet) "
+             "(every tenth stream: two programs on ONE program-map PID with equal versions; every twentieth: with different versions = finding F10) "
              "then a steady part of 3..19 items drawn from {repeated PAT, repeated PMT, null packet, further PES packets of every "
              "header shape and size}, pushed in 7-packet buffers through an allocation-free application under a counting global "
              "allocator: allocations, requests and out-of-buffer slices during the steady part must be 0 and the number of payload "
              "slices must equal the model's; hostile streams of 3000..10500 (thorough up to 256000) packets over 25 PIDs with section- "
-             "and PES-shaped starts: live heap after the whole stream <= live heap after its first quarter + 64 KiB; distinct = distinct case lines",
+             "and PES-shaped starts, and section-layer stress streams (endless aborted starts with changing versions; one start and endless "
+             "continuations; on PID 0 and on a PMT PID): live heap after the whole stream <= live heap after its first quarter + 16 KiB; distinct = distinct case lines",
         trusted=["harness/src/quiet.rs: counting GlobalAlloc wrapper and the allocation-free recording application",
                  "Vec's capacity policy, FixedBitSet's allocation and the system allocator are runtime behaviour outside the model (sampled)"],
         assumptions=["no logger is installed (warn! formats nothing)", "PARTIAL: allocation counts and slice addresses are measured on generated streams, not proved"],
